@@ -181,8 +181,13 @@ CNullText == Cell(TRUE, <<>>, "null", "t:", <<>>)
 CBool(x) == Cell(FALSE, <<IF x THEN 1 ELSE 0>>, IF x THEN "true" ELSE "false", IF x THEN "true" ELSE "false", <<>>)
 CNullBool == Cell(TRUE, <<>>, "null", "false", <<>>)
 \* list<int>: v3+ [int] count and [int]-prefixed elements, v1/v2 [short] count and [short]-prefixed elements
+\* long values are shown in digest form on both sides: length, first and last element
+ListR(xs) == IF Len(xs) > 64 THEN "[#" \o ToString(Len(xs)) \o "/" \o ToString(xs[1]) \o "/" \o ToString(xs[Len(xs)]) \o "]"
+             ELSE "[" \o JoinInts(xs) \o "]"
+BlobR(bs) == IF Len(bs) > 64 THEN "b#" \o ToString(Len(bs)) \o "/" \o ToString(bs[1]) \o "/" \o ToString(bs[Len(bs)])
+             ELSE "b:" \o JoinInts(bs)
 CListInt(v, xs) ==
-  LET r == "[" \o JoinInts(xs) \o "]"
+  LET r == ListR(xs)
       item(x) == IF v >= 3 THEN Int32(4) \o Int32(x) ELSE Short(4) \o Int32(x)
   IN Cell(FALSE, (IF v >= 3 THEN Int32(Len(xs)) ELSE Short(Len(xs))) \o Flat(Map(xs, item)), r, r, <<>>)
 CNullList == Cell(TRUE, <<>>, "null", "[]", <<>>)
@@ -226,6 +231,25 @@ CMapIntOf(ks, es) ==
   Cell(FALSE, Int32(Len(ks)) \o Flat([i \in 1 .. Len(ks) |-> Int32(4) \o Int32(ks[i]) \o WBytes(es[i])]),
        "{" \o JoinStrs([i \in 1 .. Len(ks) |-> ToString(ks[i]) \o ":" \o es[i].rp]) \o "}",
        "{" \o JoinStrs([i \in 1 .. Len(ks) |-> ToString(ks[i]) \o ":" \o es[i].rz]) \o "}", <<>>)
+\* big collections.  The [short] counts and lengths of v1/v2 are unsigned (up to 65535).
+CLen(v, n) == IF v >= 3 THEN Int32(n) ELSE Short(n)
+\* list<int> with many elements, built without recursion (6 resp. 8 bytes per element)
+CListIntBig(v, xs) ==
+  LET w == IF v >= 3 THEN 8 ELSE 6
+      pre == IF v >= 3 THEN Int32(4) ELSE Short(4)
+      body == [i \in 1 .. Len(xs) * w |-> LET j == ((i - 1) \div w) + 1
+                                                o == ((i - 1) % w) + 1
+                                            IN IF o <= w - 4 THEN pre[o] ELSE Int32(xs[j])[o - (w - 4)]]
+  IN Cell(FALSE, CLen(v, Len(xs)) \o body, ListR(xs), ListR(xs), <<>>)
+\* list<blob> / set<blob>: es are byte strings
+CListBlob(v, es) ==
+  LET item(e) == CLen(v, Len(e)) \o e
+      r == "[" \o JoinStrs(Map(es, BlobR)) \o "]"
+  IN Cell(FALSE, CLen(v, Len(es)) \o Flat(Map(es, item)), r, r, <<>>)
+\* map<int,blob>, keys ascending
+CMapIntBlob(v, ks, es) ==
+  LET r == "{" \o JoinStrs([i \in 1 .. Len(ks) |-> ToString(ks[i]) \o ":" \o BlobR(es[i])]) \o "}"
+  IN Cell(FALSE, CLen(v, Len(ks)) \o Flat([i \in 1 .. Len(ks) |-> CLen(v, 4) \o Int32(ks[i]) \o CLen(v, Len(es[i])) \o es[i]]), r, r, <<>>)
 \* tuple: the concatenation of its elements as [bytes]
 CTuple(es) == Cell(FALSE, Flat(Map(es, WBytes)), "", "", es)
 CNullTuple(nullelems) == Cell(TRUE, <<>>, "", "", nullelems)
@@ -402,7 +426,10 @@ FView(l, typed, sess) ==
 \* it; the frame length is then the compressed length, not decided here).  sess: observed
 \* through a live session (stream id chosen by the driver).  api: only what the public API
 \* hands out is observed (the PREPARED response through QueryInfo): no header, no prefixes.
-ExpView(l, typed, comp, sess, api) ==
+\* iterapi: a result that is not rows (void, set-keyspace, schema change) as Query.Iter() of a
+\* live session shows it: an iterator without columns and rows - and with the frame's warnings,
+\* custom payload and trace id.
+ExpView(l, typed, comp, sess, api, iterapi) ==
   [panic |-> "", perr |-> "",
    hv |-> IF api THEN 0 ELSE l.v, hresp |-> ~api,
    hflags |-> IF api THEN 0 ELSE HFlags(l) + (IF comp THEN HF_COMPRESS ELSE 0),
@@ -412,8 +439,8 @@ ExpView(l, typed, comp, sess, api) ==
    trace |-> IF l.tracing THEN l.traceid ELSE <<>>,
    warnings |-> IF l.warn /\ ~api THEN l.warnings ELSE <<>>,
    payload |-> IF l.pay /\ ~api THEN l.payload ELSE <<>>,
-   kind |-> ViewKind(l.kind),
-   f |-> FView(l, typed, sess)]
+   kind |-> IF iterapi THEN "iter" ELSE ViewKind(l.kind),
+   f |-> IF iterapi THEN [ncols |-> 0, nrows |-> 0, paging |-> <<>>] ELSE FView(l, typed, sess)]
 
 \* A custom type whose class is one of Cassandra's own marshal classes may be reported either as
 \* the custom type it was sent as or as the native type the class denotes.
